@@ -76,12 +76,25 @@ package dns
 
 //@ func isDomainNameLabelSpecial [C02]
 
-//@ func UnpackDomainName [C02 C03 C04]
+// ---- printed form of a wire label (RFC 1035 5.1): octet by octet, each octet b as its unit wch(b, .) of wlen(b)
+// characters.  plen is the printed length of the first k octets of the label at msg[a:], unitat says that the unit of
+// b stands at position p of the text.
+//@ spec plen(m seq, a int, k int) int = k <= 0 ? 0 : plen(m, a, k-1) + wlen(m[a+k-1]) decreases k
+//@ spec unitat(s seq, p int, b int) bool = special(b) ? (s[p] == '\\' && s[p+1] == b) : ((b < 32 || b > 126) ? (s[p] == '\\' && s[p+1] == '0' + b / 100 && s[p+2] == '0' + (b / 10) % 10 && s[p+3] == '0' + b % 10) : s[p] == b)
+
+//@ func UnpackDomainName [C02 C03 C04 C01:label]
 //@   requires 0 <= off
-//@   assert at ", lenmsg, ErrBuf@1" e1: off >= len(msg) [C03]
-//@   assert at ", lenmsg, ErrBuf@2" e2: off + c > len(msg) && 1 <= c && c <= 63 [C03]
-//@   assert at ", lenmsg, ErrLongDomain" e3: budget <= 0 [C03]
-//@   assert at ", lenmsg, ErrBuf@3" e4: off >= len(msg) [C03]
+// every label is printed octet by octet, each octet as its escape unit of RFC 1035 5.1 (label.last: the unit just
+// written is the one the escape table prescribes; label.len: the text grows by exactly the units' lengths), then a
+// dot, all behind what was printed before (s0: the text before this label; label.keep).  That the units of all
+// earlier octets of the label are still in place (a quantified frame over the recursive position function plen) was
+// written as an invariant too and did not discharge within the budget: not claimed.
+//@   ghost s0 at "budget -= c + 1" s
+//@   loop * invariant label.own: fresh(s)
+//@   loop 2 invariant label.keep: len(s0) <= len(s) && (forall p in 0..len(s0) :: s[p] == s0[p])
+//@   loop 2 invariant label.len: -1 <= rangeindex && rangeindex < c && len(s) == len(s0) + plen(msg, off, rangeindex + 1)
+//@   loop 2 invariant label.last: rangeindex >= 0 ==> unitat(s, len(s) - wlen(msg[off+rangeindex]), msg[off+rangeindex])
+//@   assert at "off += c" label.done: len(s) == len(s0) + plen(msg, off, c) + 1 && s[len(s)-1] == '.' && (forall p in 0..len(s0) :: s[p] == s0[p]) [C03 C01]
 // (a 255-octet name has at most 127 labels and each may be reached through its own pointer: what Pack emits for
 // a repeated 127-label name takes 127 hops, none of them pointer-to-pointer)
 //@   assert at "too many compression pointers" e5: ptr > 127 [C03 C04]
